@@ -47,7 +47,7 @@ def run(ctx):
                         "extensions through malloc directly is not poisoned",
                         "OpenMP thread counts 1/2/4/16 via OMP_NUM_THREADS; the actual interleavings are the runtime's",
                         "routine alphabet = the numerical API listed in harness/purity_routines.py (options, containers, dtypes, "
-                        "memory layouts as named variants), 3 argument sets each; the quick tier replays one argument set per "
+                        "memory layouts as named variants), 3 argument sets each; the quick tier replays two argument sets per "
                         "routine (rotated by VERIF_SEED), the thorough tier all of them",
                         "routines randomised without a seed argument (synthetic_trajectory, msm.bootstrap, KMedoids from n_clusters "
                         "alone) and routines that need trajectory files are outside the alphabet; see the SKIPPED / EXCLUDED "
@@ -104,16 +104,16 @@ def run(ctx):
     ctx.notes["histories_enumerated"] = len(hists)
     ctx.notes["calls_enumerated"] = len(calls)
     ctx.notes["routines"] = len(names)
-    # section of Calls x Histories that is replayed.  quick: every routine with ONE argument set, rotated by the seed
-    # (the thorough tier replays every argument set); per call the mandatory histories (NaN pattern, no prior call,
+    # section of Calls x Histories that is replayed.  quick: every routine with TWO of its three argument sets, rotated
+    # by the seed (the thorough tier replays every argument set); per call the mandatory histories (NaN pattern, no prior call,
     # 1 and 16 threads) plus `extra` histories taken at a seed-rotated stride through the enumeration.
-    extra = 5 if quick else 72
+    extra = 3 if quick else 72
     mand = [hh for hh in hists if not hh["prior"] and hh["byte"] == 255 and hh["threads"] in (1, 16)]
     rest = [hh for hh in hists if hh not in mand]
     pairs = []
     for c in sorted(calls, key=lambda c: (c["routine"], c["argset"])):
         n, k = names[c["routine"] - 1], c["argset"] - 1
-        if quick and k != (PR.hash_name(n) + ctx.seed) % nargs:
+        if quick and (k - PR.hash_name(n) - ctx.seed) % nargs >= 2:
             continue
         pairs.append((n, k))
     ctx.exhaustive = False
